@@ -7,9 +7,12 @@ import common
 import gen
 
 
-def harness_spec(D, periodic, omp=False):
+def harness_spec(D, periodic, omp=False, wide=False):
     name = "h_core_%d_%d%s" % (D, periodic, "_omp" if omp else "")
     flags = ["-DDIM=%d" % D, "-DPERIODIC=%d" % periodic]
+    if wide:
+        name += "_w64"
+        flags.append("-DSLOTBITS=64")
     srcs = ["h_core.cpp"]
     if omp:
         flags += ["-DUSE_OMP", "-fopenmp"]
@@ -17,9 +20,9 @@ def harness_spec(D, periodic, omp=False):
     return {"name": name, "sources": srcs, "flags": flags}
 
 
-def build_harnesses(configs, omp=False):
+def build_harnesses(configs, omp=False, wide=False):
     """configs: iterable of (D, periodic).  returns ({(D,periodic): path}, {(D,periodic): compile log of failures})"""
-    specs = {c: harness_spec(c[0], c[1], omp) for c in sorted(set(configs))}
+    specs = {c: harness_spec(c[0], c[1], omp, wide) for c in sorted(set(configs))}
     res = common.build_many(list(specs.values()))
     ok, bad = {}, {}
     for c, s in specs.items():
